@@ -7,6 +7,13 @@
 (*   the Collector holds exactly the non-nil errors added (abstract state       *)
 (*   `added`, every recorded Add uses a fresh error, so a set is a bag);        *)
 (*   Len() = |added|;  Resolve() = nil  iff  added = {}.                        *)
+(*   Nil-like arguments (nil, a typed-nil *ers.Stack "nstack") add nothing.     *)
+(*   An Add of a COMPOSITE error (op "addc": errors.Join / fmt.Errorf with      *)
+(*   several %w / an *ers.Stack / a type with Unwind() or Unwrap() []error,     *)
+(*   possibly nested or with nil holes; field `ids` = its fresh leaves) adds    *)
+(*   the bag of its leaves in ONE atomic step: Len() never sees half of it and  *)
+(*   no concurrent Add is lost or repeated because of it.  Inside one composite *)
+(*   the order of the leaves is not judged (DESIGN 5.0 "C12 order").            *)
 (*                                                                              *)
 (* Add/Len/Resolve are pending between `call` and `ret`; the silent step        *)
 (* Lin(p) applies one atomically and fixes its result, `ret` must find the      *)
@@ -63,22 +70,28 @@ Reset == /\ More /\ Ev.ev = "reset"
 Ext(f, k, v) == [x \in DOMAIN f \cup {k} |-> IF x = k THEN v ELSE f[x]]
 Range(s) == {s[i] : i \in 1..Len(s)}
 
-LinOps == {"add", "len", "resolve"}
+LinOps  == {"add", "addc", "len", "resolve"}
+NilArgs == {"nil", "nstack"}
+
+\* the errors an Add supplies
+Supplied(op, arg, ids) == IF op = "add" THEN (IF arg \in NilArgs THEN {} ELSE {arg})
+                          ELSE IF op = "addc" THEN Range(ids) ELSE {}
 
 Call == /\ More /\ Ev.ev = "call" /\ Ev.op \in LinOps
-        /\ pend' = pend \cup {[id |-> Ev.id, op |-> Ev.op, arg |-> Ev.arg, lin |-> FALSE, res |-> "-"]}
-        /\ IF Ev.op = "add" /\ Ev.arg # "nil"
-             THEN /\ Ev.arg \notin called                 \* the recorder uses fresh errors
-                  /\ called' = called \cup {Ev.arg} /\ pred' = Ext(pred, Ev.arg, retd)
-             ELSE UNCHANGED <<called, pred>>
+        /\ pend' = pend \cup {[id |-> Ev.id, op |-> Ev.op, arg |-> Ev.arg, ids |-> Ev.ids, lin |-> FALSE, res |-> "-"]}
+        /\ LET new == Supplied(Ev.op, Ev.arg, Ev.ids) IN
+             /\ new \cap called = {}                      \* the recorder uses fresh errors
+             /\ Ev.op = "addc" => Cardinality(new) = Len(Ev.ids)
+             /\ called' = called \cup new
+             /\ pred' = [x \in DOMAIN pred \cup new |-> IF x \in DOMAIN pred THEN pred[x] ELSE retd]
         /\ l' = l + 1 /\ UNCHANGED <<added, retd, its>>
 
 Done(p, r) == pend' = (pend \ {p}) \cup {[p EXCEPT !.lin = TRUE, !.res = r]}
 
 Lin == \E p \in pend :
          /\ ~p.lin
-         /\ \/ /\ p.op = "add"
-               /\ added' = IF p.arg = "nil" THEN added ELSE added \cup {p.arg}
+         /\ \/ /\ p.op \in {"add", "addc"}
+               /\ added' = added \cup Supplied(p.op, p.arg, p.ids)       \* a composite: all its leaves at once
                /\ Done(p, "ok")
             \/ /\ p.op = "len" /\ Done(p, ToString(Cardinality(added))) /\ UNCHANGED added
             \/ /\ p.op = "resolve" /\ Done(p, IF added = {} THEN "nil" ELSE "err") /\ UNCHANGED added
@@ -86,7 +99,7 @@ Lin == \E p \in pend :
 
 Ret == /\ More /\ Ev.ev = "ret" /\ Ev.op \in LinOps
        /\ \E p \in pend : /\ p.id = Ev.id /\ p.lin /\ p.res = Ev.res /\ pend' = pend \ {p}
-                          /\ retd' = IF p.op = "add" /\ p.arg # "nil" THEN retd \cup {p.arg} ELSE retd
+                          /\ retd' = retd \cup Supplied(p.op, p.arg, p.ids)
        /\ l' = l + 1 /\ UNCHANGED <<added, called, pred, its>>
 
 \* ---- iterators (judged declaratively, no linearisation point needed)
